@@ -30,13 +30,13 @@ RULE = ("files: every sequence of record kinds of length 1..Lfull plus covering 
         "(file, offset) pairs")
 ASSUMPTIONS = ["a crash leaves a byte prefix of the file (append-only stream)",
                "record contents range over a finite family; offsets are exhaustive"]
-REQUIRED_CLASSES = ['opened-by-relative-name-then-directory-changed', 'offset-in-metadata', 'offset-on-record-boundary', 'offset-inside-numpy-payload', 'offset-last-byte',
+REQUIRED_CLASSES = ['same-result-object-written-twice', 'opened-by-relative-name-then-directory-changed', 'offset-in-metadata', 'offset-on-record-boundary', 'offset-inside-numpy-payload', 'offset-last-byte',
                     'open-raises', 'iteration-raises', 'clean-end-after-prefix', 'yields-some-then-raises-or-ends',
                     'full-file', 'record-with-thousands-of-fits', 'same-source-twice', 'blank-padded-names', 'same-source-object-changed-in-place']
 TIMEOUT = {'quick': 300, 'thorough': 900}
 
-KINDS_QUICK = ['f0', 'f1m', 'f3m', 'f3', 'f1L', 'f3mx', 'f1D', 'f1mP', 'f1S', 'f3mW', 'f3mE', 'f0m']          # D: same source content as the record before it; P: blank-padded names; S: the very same Source object, changed in place
-KINDS_ALL = ['f0', 'f0m', 'f1', 'f1m', 'f3', 'f3m', 'f1L', 'f3mL', 'f3mx', 'f3x', 'f0L', 'f1mL', 'f1D', 'f3mD', 'f1mP', 'f3P', 'f1S', 'f3mS', 'f3mW', 'f1W', 'f3mE', 'f3Ex']
+KINDS_QUICK = ['f0', 'f1m', 'f3m', 'f3', 'f1L', 'f3mx', 'f1D', 'f1mP', 'f1S', 'f3mW', 'f3mE', 'f0m', 'f3mA', 'f3mO', 'f3U', 'f3mR']          # D: same source content as the record before it; P: blank-padded names; S: the very same Source object, changed in place
+KINDS_ALL = ['f0', 'f0m', 'f1', 'f1m', 'f3', 'f3m', 'f1L', 'f3mL', 'f3mx', 'f3x', 'f0L', 'f1mL', 'f1D', 'f3mD', 'f1mP', 'f3P', 'f1S', 'f3mS', 'f3mW', 'f1W', 'f3mE', 'f3Ex', 'f3mA', 'f3mO', 'f3U', 'f3mR', 'f1mO']
 
 
 def setup(tier, seed):
@@ -120,9 +120,13 @@ def _record(kind, idx, meta):
     s.name = ('source_with_a_rather_long_name_%02d' % sidx) if 'L' in kind else ('s%d   ' % sidx if 'P' in kind else 's%d' % sidx)
     s.x = 10.25 + sidx
     s.y = -0.5 * sidx
-    s.valid = np.array([1, 4, 3])
-    s.flux = np.array([1.5 + sidx, 0.25, 7.0])
-    s.error = np.array([0.1, 0.05, 0.9])
+    nb = 3
+    if 'O' in kind:        # a source observed in ONE band (its predicted fluxes are an (n_fits, 1) array)
+        s.valid, s.flux, s.error, nb = np.array([1]), np.array([1.5 + sidx]), np.array([0.25]), 1
+    else:
+        s.valid = np.array([1, 4, 3])
+        s.flux = np.array([1.5 + sidx, 0.25, 7.0])
+        s.error = np.array([0.1, 0.05, 0.9])
     if kind == 'big':
         return _big_record(s, idx, meta)
     n = int(kind[1])
@@ -138,12 +142,19 @@ def _record(kind, idx, meta):
     if 'E' in kind and n >= 2:        # the last two fits exactly tied at 1e30, or (with x) both infinite
         i.chi2 = i.chi2.copy()
         i.chi2[-2:] = np.inf if 'x' in kind else 1e30
-    i.model_id = np.array([200000, 70, 300][:n])          # indices into a grid of several hundred thousand models, of which only a few fits were kept
-    if 'W' in kind:        # names that spell out the parameters: 48 characters, the first 47 shared
+    if 'A' in kind and n:        # A_V and scale of the kept fits almost, but not exactly, equal
+        i.av = np.array([2.5, 2.50001, 2.500015][:n])
+        i.sc = np.array([-1.0, -1.000001, -1.0000005][:n])
+    # indices into a large grid of which only a few fits were kept: several hundred thousand models, or a grid whose largest kept index lies
+    # just above 127 / 32767
+    i.model_id = np.array([[200000, 70, 300], [200, 70, 130], [40000, 5, 33000]][idx % 3][:n])
+    if 'U' in kind:        # non-ASCII names that fill the width of their array
+        i.model_name = np.array(['grid_\u03b2_0010', 'grid_\u03b2_0002', 'grid_\u03b2_0001'][:n])
+    elif 'W' in kind:        # names that spell out the parameters: 48 characters, the first 47 shared
         i.model_name = np.array(['grid_model_with_all_its_parameters_spelled_out_' + c_ for c_ in 'cab'][:n])
     else:
         i.model_name = np.array(['model_c', 'model_a', 'model_b'][:n], dtype='U30') if 'P' not in kind else np.array(['model_c    ', 'model_a    ', 'model_b    '][:n], dtype='U30')
-    i.model_fluxes = ((np.arange(n * 3, dtype=float).reshape(n, 3) + 0.5 * idx) / 3.0) if 'm' in kind else None          # thirds: not representable in single precision
+    i.model_fluxes = ((np.arange(n * nb, dtype=float).reshape(n, nb) + 0.5 * idx) / 3.0) if 'm' in kind else None          # thirds: not representable in single precision
     i.meta.model_dir, i.meta.filters, i.meta.extinction_law = meta
     return i
 
@@ -179,6 +190,13 @@ def _write_history(path, seq, meta, upto=None, rec=None):
     fout = FitInfoFile(path, 'w')
     written = []
     for i, (k, r) in enumerate(zip(seq[:upto], records[:upto])):
+        if 'R' in k and i > 0:
+            # the very same result object as the previous record, cut down to its best fit in between (written, selected, written again)
+            r = records[i - 1]
+            r.keep(('N', 1))
+            records[i] = r
+            if rec is not None:
+                rec.cls('same-result-object-written-twice')
         if 'S' in k and i > 0:
             r.source = records[i - 1].source
             r.source.valid[2] = 0 if r.source.valid[2] != 0 else 1
